@@ -51,6 +51,8 @@ type Handler struct {
 	OnRTCP       func(ss *gortsplib.ServerSession, m *description.Media, pkt rtcp.Packet)
 	StatusFor    func(method base.Method, path string) base.StatusCode // 0 = default
 	OnSetupExtra func(ctx *gortsplib.ServerHandlerOnSetupCtx)
+	// PlayStatus, when set, decides the answer to a PLAY from the session it arrives for (0 = 200).
+	PlayStatus func(ss *gortsplib.ServerSession) base.StatusCode
 	// Hook, when set, runs inside every handler callback right after it was recorded (on the
 	// library goroutine that invoked the callback).
 	Hook func(cb CB)
@@ -246,6 +248,11 @@ func (h *Handler) OnPlay(ctx *gortsplib.ServerHandlerOnPlayCtx) (*base.Response,
 	}
 	if c := h.status(base.Play, ctx.Path); c != base.StatusOK {
 		return &base.Response{StatusCode: c}, nil
+	}
+	if h.PlayStatus != nil {
+		if c := h.PlayStatus(ctx.Session); c != 0 && c != base.StatusOK {
+			return &base.Response{StatusCode: c}, nil
+		}
 	}
 	return &base.Response{StatusCode: base.StatusOK}, nil
 }
